@@ -162,6 +162,9 @@ def load_known_findings():
                 continue
             d = json.loads(ln)
             open_[d['id']] = d
+    # trial runs against a candidate repair (a scratch worktree given by VERIF_REPO): treat the listed findings as not listed
+    for k in filter(None, os.environ.get('VERIF_KF_EXCLUDE', '').split(',')):
+        open_.pop(k, None)
     return open_, fixed
 
 
@@ -464,6 +467,10 @@ class Check:
         hs = []
         for h in self.spec.HARNESSES:
             if self.only and h.fn not in self.only:
+                continue
+            # companion harness of a finding that is no longer open (repaired): its input region is back in the main harness
+            # (the `#if KF_<id>` exclusion there is off), the companion itself is not built
+            if h.known and h.known not in self.known_open:
                 continue
             if not self.only:
                 if self.tier not in h.tiers:
